@@ -85,13 +85,23 @@ Accepts(j, p, m) ==
       [] MutValidate = "skip_eligible" -> j \in Jobs(inst) /\ p \in 1..JobLen(inst, j) /\ nxt[j] = p /\ m \in Machines(inst)
       [] OTHER -> ValidRequest(inst, State, j, p, m)
 
-(* dispatch(operation (j,p), machine m): accepted *)
-Dispatch(j, m) ==
+(* dispatch(operation (j,p), machine m): accepted.  In the specification an   *)
+(* accepted request always names the next operation of its job (p = nxt[j]);  *)
+(* the position is explicit so that the "readiness not checked" mutant can    *)
+(* accept - and schedule - an operation that is not next.                     *)
+CommitOfP(I, s, j, p, m) ==
+    IF MutStart = "ok" /\ p = s.nxt[j] THEN DispatchNext(I, s, j, m)
+    ELSE LET st == StartOf(s, j, m)  en == st + Dur(I, <<j, p>>)
+         IN [sched |-> [s.sched EXCEPT ![m] = Append(@, <<j, p, st>>)],
+             nxt |-> [s.nxt EXCEPT ![j] = @ + 1],
+             jfree |-> [s.jfree EXCEPT ![j] = en],
+             mfree |-> [s.mfree EXCEPT ![m] = en]]
+DispatchP(j, p, m) ==
     /\ Idle
-    /\ j \in Jobs(inst) /\ nxt[j] <= JobLen(inst, j)
-    /\ Accepts(j, nxt[j], m)
-    /\ LET n == CommitOf(inst, State, j, m)
-           e == <<j, nxt[j], m, n.sched[m][Len(n.sched[m])][3]>>
+    /\ j \in Jobs(inst) /\ p \in 1..JobLen(inst, j)
+    /\ Accepts(j, p, m)
+    /\ LET n == CommitOfP(inst, State, j, p, m)
+           e == <<j, p, m, n.sched[m][Len(n.sched[m])][3]>>
        IN /\ sched' = n.sched /\ nxt' = n.nxt /\ jfree' = n.jfree /\ mfree' = n.mfree
           /\ cache' = IF MutCache \in {"clear_after_notify", "no_clear_on_dispatch"} THEN cache ELSE Empty
           /\ pend' = CASE MutNotify = "twice"   -> [i \in 1..(2 * Len(subs)) |-> <<"update", subs[(i + 1) \div 2], e>>]
@@ -100,6 +110,10 @@ Dispatch(j, m) ==
           /\ ghost' = [o \in Obs |-> IF o \in Rng(subs) THEN Append(ghost[o], <<"update", e>>) ELSE ghost[o]]
           /\ last' = [kind |-> "ok"]
     /\ UNCHANGED <<inst, filt, subs, olog>>
+Dispatch(j, m) ==
+    IF MutValidate = "skip_ready"
+    THEN \E p \in 1..JobLen(inst, j) : nxt[j] <= JobLen(inst, j) /\ DispatchP(j, p, m)
+    ELSE nxt[j] <= JobLen(inst, j) /\ DispatchP(j, nxt[j], m)
 
 (* dispatch of an operation that is not next / on an ineligible machine /    *)
 (* with an out-of-range machine id (m = 0 and m = NM+1 stand for those):     *)
@@ -202,11 +216,15 @@ NextQueries ==                   \* + C05: memoised queries in any order
 NextObservers ==                 \* + C10: observers come and go
     \/ NextFaults
     \/ \E o \in Obs : Create(o) \/ Unsubscribe(o)
+NextObsQueries ==                \* + queries between the calls (what an observer sees goes through the cache)
+    \/ NextObservers
+    \/ \E q \in {"scheduled_operations", "current_time"} : Query(q)
 
 SpecCore == Init /\ [][NextCore]_vars
 SpecFaults == Init /\ [][NextFaults]_vars
 SpecQueries == Init /\ [][NextQueries]_vars
 SpecObservers == Init /\ [][NextObservers]_vars
+SpecObsQueries == Init /\ [][NextObsQueries]_vars
 
 -----------------------------------------------------------------------------
 (* Properties *)
